@@ -168,7 +168,7 @@ def toSparse (d : Data) (inputIsDense : Bool) (shape : Nat × Nat) : Except Err 
   match d with
   | .vec v => .ok (vecToSparse v)
   | .arr nR nC rows => .ok (arrToSparse nR nC rows)
-  | .emptyList => .ok ⟨0, 0, []⟩
+  | .emptyList => .ok ⟨shape.1, shape.2, tabulate shape.1 shape.2 (fun _ _ => 0)⟩   -- coo_matrix(shape)
   | .listArr rows => listNparrayToSparse rows
   | .listDict ds => listDictToSparse ds
   | .listSparse ms => listSparseToSparse ms
@@ -385,9 +385,11 @@ def bump (d : Dict) (k : Coord) : Dict :=
 def intern (ids : List String) (x : String) : Nat × List String :=
   if x ∈ ids then (ids.idxOf x, ids) else (ids.length, ids ++ [x])
 
+def isHS (r : UcRec) : Bool := r.ty == "H" || r.ty == "S"
+
 def ucStep (st : UcState) (r : UcRec) : Except Err UcState :=
   let (oi, obsIds) := intern st.obsIds r.seed
-  if r.ty = "H" || r.ty = "S" then
+  if isHS r then
     match sampleOf r.query with
     | none => .error .value
     | some s =>
@@ -499,13 +501,14 @@ def encodes (d : Data) (isDense : Bool) (D : Grid) (n m : Nat) : Bool :=
       | none => false
       | some ts => inRange n m ts && allCells n m (fun i j => cellSum ts i j == cellD D i j)
   | .listDict ds => rowDicts ds D n m || colDicts ds D n m
-  | .emptyList => false
+  | .emptyList => allCells n m (fun i j => cellD D i j == 0)
   | .unknown => false
 
 /-- forms that bring a shape of their own (the others take the one the ID counts announce) -/
 def carriesShape (d : Data) (isDense : Bool) : Bool :=
   match d with
   | .dict _ => false
+  | .emptyList => false
   | .listList _ => isDense
   | _ => true
 
@@ -606,8 +609,6 @@ def isSampleOf (q s : String) : Bool :=
   match ql.drop sl.length with
   | '_' :: rest => !rest.contains '_'
   | _ => false
-
-def isHS (r : UcRec) : Bool := r.ty == "H" || r.ty == "S"
 
 /-- number of H/S records whose (renamed) seed is `o` and whose query belongs to sample `s` -/
 def ucCount (label : String → Option String) (recs : List UcRec) (o s : String) : Rat :=
@@ -711,6 +712,11 @@ def handle (req : Json) : R Json := do
     let res ← asResult (← fld req "result")
     let model := construct inp
     pure (answer (holdsConstruct c res) model res (holdsConstruct c model))
+  | "decode" =>
+    let inp ← asInput (← fld req "input")
+    let res ← asResult (← fld req "result")
+    let model := construct inp
+    pure (answer none model res none)
   | "group" =>
     let eqs ← listF asBool req "eqs"
     pure (Json.mkObj (verdictToJson (holdsGroup eqs) ++ [("agree", .bool true), ("model", .null),
